@@ -17,7 +17,7 @@ RULE = ("split_sync: all 65536 int16 words (exhaustive) in natural, shuffled, co
         "step amplitudes and analog thresholding. Non-trivial: a train with >= 3 events on >= 2 lines; distinct = distinct "
         "(layout | file kind, line subset, slice, dtype) signature")
 ASSUMPTIONS = ["one digital sync word per sample (as in every fixture); 0/1 trains are given as signed or floating arrays"]
-REQUIRED = {"words_checked": 65536, "read_sync_checked": 10, "fronts_checked": 100, "fronts_2d_checked": 100, "strided_sync_checked": 20, "nidq_partial_checked": 8, "analog_lines_checked": 4, "sync_routes_checked": 30, "lf_band_sync_files": 3}
+REQUIRED = {"words_checked": 65536, "read_sync_checked": 10, "fronts_checked": 100, "fronts_2d_checked": 100, "strided_sync_checked": 20, "nidq_partial_checked": 8, "analog_lines_checked": 4, "sync_routes_checked": 30, "lf_band_sync_files": 3, "headers_rewritten_in_place": 2}
 CASE_TIMEOUT = 120.0
 EXHAUSTIVE = "split_sync over all 65536 words x 16 bits"
 
@@ -320,6 +320,17 @@ def run_case(case):
                     res.check(sya.shape == (ns, 17) and np.array_equal(sya[:, 16], xa_), "read_sync:nidq-absolute-threshold",
                               f"nidq analog line resting at {rest:.2f} V with {amp_:.2f} V pulses, read_sync(threshold={rest + amp_ / 2:.2f}, floor_percentile={fp!r}): "
                               f"{int((sya[:, 16] != xa_).sum()) if sya.shape == (ns, 17) else '?'} samples differ from the written train", counter="analog_lines_checked")
+            # the recording is acquired AGAIN under the same name (a re-run): same header length, another analog range; every read describes the files as they are now
+            mfile = b.with_suffix(".meta")
+            txt = mfile.read_text()
+            if "niAiRangeMax=5\n" in txt:
+                mfile.write_text(txt.replace("niAiRangeMax=5\n", "niAiRangeMax=1\n"))       # the same counts now stand for a fifth of the voltage: swings of 0.4..0.6 V
+                with spikeglx.Reader(b) as sr2:
+                    sy2 = sr2.read_sync(slice(0, ns))
+                    res.check(sy2.shape == (ns, 16 + xa) and np.array_equal(sy2[:, :16], T) and not np.any(sy2[:, 16:]), "read_sync:nidq-header-rewritten",
+                              f"nidq header rewritten in place (same size, niAiRangeMax 5 -> 1): analog lines read {int(np.sum(sy2[:, 16:])) if sy2.ndim == 2 else '?'} high samples, the "
+                              f"0.4-0.6 V swings now lie below the 1.2 V threshold", counter="headers_rewritten_in_place")
+                mfile.write_text(txt)
             # an empty selection gives zero rows with the full line count (digital + analog), not an error
             for sl in (slice(7, 7), slice(ns, ns + 5), slice(5, 2)):
                 sy = sr.read_sync(sl)
